@@ -4,6 +4,7 @@ package main
 // Everything is printed by explicit printers in a fixed field order; nothing comes out of a map unsorted.
 
 import (
+	"bytes"
 	"encoding/hex"
 	"fmt"
 	"strconv"
@@ -427,8 +428,9 @@ func fmtFrame(p *lw.PHYPayload) string {
 }
 
 type tokReader struct {
-	t []string
-	i int
+	t      []string
+	i      int
+	inputs []guardedBuf
 }
 
 func (r *tokReader) next() (string, error) {
@@ -452,12 +454,31 @@ func (r *tokReader) i64() (int64, error) {
 	}
 	return strconv.ParseInt(s, 10, 64)
 }
+// guardedBuf is an input buffer handed to the code under test: the bytes, 16 bytes of spare capacity filled
+// with a canary, and a pristine copy. C09 / C10: decoders must not write to either.
+type guardedBuf struct {
+	full []byte
+	orig []byte
+}
+
+func (g guardedBuf) written() bool { return !bytes.Equal(g.full, g.orig) }
+
 func (r *tokReader) hex() ([]byte, error) {
 	s, err := r.next()
 	if err != nil {
 		return nil, err
 	}
-	return unhx(s)
+	b0, err := unhx(s)
+	if err != nil {
+		return nil, err
+	}
+	full := make([]byte, len(b0)+16)
+	copy(full, b0)
+	for i := len(b0); i < len(full); i++ {
+		full[i] = 0x5a
+	}
+	r.inputs = append(r.inputs, guardedBuf{full: full, orig: append([]byte{}, full...)})
+	return full[:len(b0)], nil
 }
 func (r *tokReader) boolean() (bool, error) {
 	v, err := r.u64()
